@@ -22,6 +22,8 @@ func init() {
 			"NOT decided: agreement between independently running members, CAS retry convergence, bounded admission/removal, distinctness under concurrent joins (distributed, timed behaviour).",
 		Assumptions: []string{"EventBus calls subscribers with the published arguments via reflection", "members observe the same index document"},
 		Rules: []RuleDef{
+			{ID: "C10.R35", Text: "a member acts on the newest numbering it was told: every bus-fed membership records each announcement first and unconditionally, and GetInfo only reads — a waiter woken late cannot write an older numbering over a newer one (same rule as C11.R12)", Run: latestInfo},
+			{ID: "C10.R34", Text: "members with the same group configuration judge liveness alike: no package-level state is written after initialisation — heart-beat settings are per client, not shared between the consumers of one process (same rule as C02.R28)", Run: globalsFrozen},
 			{ID: "C10.R1", Text: "publish only on change: Bus.Publish(topic, x) is dominated by x.IsChanged(current)=true; IsChanged ⇔ other==nil ∨ MemberNumber≠ ∨ TotalMembers≠", Run: c10r1},
 			{ID: "C10.R2", Text: "bus contract: one topic constant; every publish passes one *membership.Model; every subscriber is func(*membership.Model)", Run: c10r2},
 			{ID: "C10.R3", Text: "numbering formulas of the four mechanisms (self index+1 / len; leader 1, follower i+2 of the join-ordered list, total len+1; config / ordinal+1)", Run: c10r3},
@@ -267,18 +269,54 @@ func c10r3(c *Ctx, id string) {
 	loop := sd.AnonFuncs[0]
 	c.see(loop)
 	var setInfo, rebal *ssa.Call
-	allInstrs(loop, func(in ssa.Instruction) {
-		call, ok := in.(*ssa.Call)
-		if !ok {
-			return
+	// the numbering may be done in the loop itself or in a method of the same type the loop calls with the list and the
+	// total (`s.rebalanceFollowers(names, totalMembers)`): terms of that helper are read with its parameters replaced by
+	// what the loop passes
+	home := loop
+	var homeCall *ssa.Call
+	scan := func(f *ssa.Function) {
+		allInstrs(f, func(in ssa.Instruction) {
+			call, ok := in.(*ssa.Call)
+			if !ok {
+				return
+			}
+			if isStaticCall(call.Common(), "/servicediscovery", "serviceDiscovery", "SetInfo") && f == loop {
+				setInfo = call
+			}
+			if call.Common().IsInvoke() && call.Common().Method.Name() == "Rebalance" {
+				rebal = call
+				home = f
+			}
+		})
+	}
+	scan(loop)
+	if rebal == nil {
+		allInstrs(loop, func(in ssa.Instruction) {
+			call, ok := in.(*ssa.Call)
+			if !ok || rebal != nil {
+				return
+			}
+			if h := call.Common().StaticCallee(); h != nil && h.Blocks != nil && w.inModule(h) && h.Signature.Recv() != nil && recvTypeName(h.Signature.Recv().Type()) == "serviceDiscovery" {
+				scan(h)
+				if rebal != nil {
+					homeCall = call
+					c.see(h)
+				}
+			}
+		})
+	}
+	inLoopTerms := func(v ssa.Value) string {
+		o := w.Origin(v)
+		if homeCall == nil {
+			return o
 		}
-		if isStaticCall(call.Common(), "/servicediscovery", "serviceDiscovery", "SetInfo") {
-			setInfo = call
+		for i, p := range home.Params {
+			if i < len(homeCall.Common().Args) && i > 0 {
+				o = strings.ReplaceAll(o, "param("+p.Name()+")", w.Origin(homeCall.Common().Args[i]))
+			}
 		}
-		if call.Common().IsInvoke() && call.Common().Method.Name() == "Rebalance" {
-			rebal = call
-		}
-	})
+		return o
+	}
 	if setInfo == nil || rebal == nil {
 		c.Undecided(id, "leader-numbering", loop.Pos(), "SetInfo / Client.Rebalance calls not found in the monitor loop")
 	} else {
@@ -300,11 +338,11 @@ func c10r3(c *Ctx, id string) {
 						_ = io
 						// structural identity: find the Load call feeding the receiver and its key's index value
 						var keyIdx ssa.Value
-						allInstrs(loop, func(in ssa.Instruction) {
+						allInstrs(home, func(in ssa.Instruction) {
 							if cc := callOf(in); cc != nil {
 								if m, _ := csmapMethod(cc); m == "Load" {
 									if ld, ok := cc.Args[1].(*ssa.UnOp); ok {
-										if ia, ok := ld.X.(*ssa.IndexAddr); ok && w.Origin(ia.X) == names {
+										if ia, ok := ld.X.(*ssa.IndexAddr); ok && inLoopTerms(ia.X) == names {
 											keyIdx = ia.Index
 										}
 									}
@@ -317,7 +355,7 @@ func c10r3(c *Ctx, id string) {
 				}
 			}
 		}
-		okT := w.Origin(rebal.Common().Args[1]) == total
+		okT := inLoopTerms(rebal.Common().Args[1]) == total
 		c.Check(okF && okT, id, "follower-numbering", rebal.Pos(), detail+", total "+total, "follower numbering is not (index in the join-ordered list + 2, len+1) addressed to the follower at that index: number "+w.Origin(rebal.Common().Args[0])+", total "+w.Origin(rebal.Common().Args[1]))
 	}
 	// static and stateful set
